@@ -282,7 +282,13 @@ class RealRib(object):
         self.connected = True
 
     def lost(self):
-        self.sim.step({'k': 'lost', 'c': self.cid})
+        # every second drop is initiated by the agent itself (the peer sends a Cease NOTIFICATION, the agent closes the
+        # connection, then the reactor reports connectionLost); the others are plain peer-side resets
+        self.ndrops = getattr(self, 'ndrops', 0) + 1
+        if self.ndrops % 2 == 0 and self.sim.enabled({'k': 'chunk', 'c': self.cid}):
+            self.sim.step({'k': 'chunk', 'c': self.cid, 'hex': SG.frame(3, b'\x06\x02').hex()})
+        if self.sim.enabled({'k': 'lost', 'c': self.cid}):
+            self.sim.step({'k': 'lost', 'c': self.cid})
         self.connected = False
 
     def recv(self, frame):
